@@ -211,7 +211,11 @@ class Check:
     def coqchk(self, libs):
         rc, out = run(["timeout", "1500", "coqchk", "-silent", "-o", "-Q", "theories", "Ford"] + libs,
                       cwd=COQ, timeout=1600)
-        ok = rc == 0
+        # the independent checker must accept every library and report no axiom, no type-in-type,
+        # no unsafe fixpoint and no assumed positivity
+        clean = all(f"{k}: <none>" in out for k in ("Axioms", "relying on type-in-type",
+                                                    "relying on unsafe (co)fixpoints", "positivity is assumed"))
+        ok = rc == 0 and clean
         self.obligation("coqchk:" + ",".join(libs), ok, out[-1500:])
         self.extra["coqchk"] = out[-1500:]
         return ok
